@@ -794,6 +794,13 @@ def _unify(pat, term, binding, metas, depth=0):
                 b = dict(b)
                 b[m] = ('expanded', term)
                 yield b
+        if pd is None and depth < 6 and getattr(metas, 'mdefs_on', False):
+            # several documented definitions, none met yet: the code has one of them written out here
+            for idx_, pd_ in getattr(metas, 'mdefs', {}).get(m, ()):
+                for b in _unify(pd_, term, binding, metas, depth + 1):
+                    b = dict(b)
+                    b['__px__'] = b.get('__px__', frozenset()) | {(m, idx_)}
+                    yield b
         return
     if isinstance(pat, tuple) and isinstance(term, tuple):
         if term and term[0] == 'var' and len(term) == 2 and not (pat and pat[0] == 'var') and depth < 6:
